@@ -91,7 +91,30 @@ func anyV(ssa.Value) bool { return true }
 func isNil(v ssa.Value) bool { return isNilConst(v) }
 
 func isVal(target ssa.Value) vpred {
-	return func(v ssa.Value) bool { return stripConv(v) == stripConv(target) }
+	return func(v ssa.Value) bool { return cellValue(v) == cellValue(target) }
+}
+
+// cellValue looks through conversions and through loads of a local variable cell that is written only by its own
+// function and has exactly one reaching store at the load (named results with a defer, address-taken locals): such a
+// load IS the stored value.
+func cellValue(v ssa.Value) ssa.Value {
+	for i := 0; i < 8; i++ {
+		v = stripConv(v)
+		u, ok := v.(*ssa.UnOp)
+		if !ok || u.Op != token.MUL {
+			return v
+		}
+		a, ok := u.X.(*ssa.Alloc)
+		if !ok || !cellLocalOnly(a, u.Parent()) {
+			return v
+		}
+		sts, zero := reachingStores(a, u)
+		if zero || len(sts) != 1 {
+			return v
+		}
+		v = sts[0].Val
+	}
+	return v
 }
 
 func loadOf(field string) vpred { return func(v ssa.Value) bool { return isLoadOf(v, field) } }
